@@ -1,6 +1,10 @@
 //! Known findings: recognised on the reference model *before* a step is executed
 //! (DESIGN.md §8).  The list itself lives in /verif/known_findings.txt and is never written at run time.
+//! A trigger describes the *region of (state, call) pairs* in which a listed defect manifests; a pending
+//! step inside the region is not executed in exploration runs (and counted), everything else is
+//! executed under fully strict oracles.
 
+use crate::model::*;
 use crate::step::*;
 use crate::world::World;
 
@@ -21,7 +25,7 @@ impl Findings {
                 }
                 for tok in l.split_whitespace() {
                     if let Some(t) = tok.strip_prefix("trigger=") {
-                        if t != "none" {
+                        if t != "none" && !f.active.iter().any(|a| a == t) {
                             f.active.push(t.to_string());
                         }
                     }
@@ -40,10 +44,17 @@ impl Findings {
         if self.active.is_empty() {
             return None;
         }
-        let _ = (w, st);
+        let mut plan_ok: Option<bool> = None;
         for (name, pred) in TRIGGERS {
             if self.on(name) && pred(w, st) {
-                return Some(name);
+                // a call the model says must be refused leaves the region untouched: execute it
+                let ok = *plan_ok.get_or_insert_with(|| {
+                    let p = w.model.plan(st);
+                    p.ok && !p.skip
+                });
+                if ok {
+                    return Some(name);
+                }
             }
         }
         None
@@ -52,4 +63,57 @@ impl Findings {
 
 type Pred = fn(&World, &Step) -> bool;
 
-pub const TRIGGERS: &[(&str, Pred)] = &[];
+fn kind_of(w: &World, s: S) -> Option<Kind> {
+    w.model.node_slot(s).map(|m| w.model.nodes[m].kind)
+}
+
+/// create_text_node / create_comment / create_cdata_section given data the node kind cannot hold:
+/// the factories cannot return an error and unwrap the validation result.
+fn factory_unstorable_data(_w: &World, st: &Step) -> bool {
+    match &st.op {
+        Op::CreateText { data, .. } => !storable(Kind::Text, data),
+        Op::CreateComment { data, .. } => !storable(Kind::Comment, data),
+        Op::CreateCData { data, .. } => !storable(Kind::CData, data),
+        _ => false,
+    }
+}
+
+/// a structure call that removes or moves the DOCTYPE node: entity references lose their declarations,
+/// and the document can end up with the doctype after the document element
+fn doctype_moved(w: &World, st: &Step) -> bool {
+    let is_dt = |s: &S| kind_of(w, *s) == Some(Kind::DocType);
+    match &st.op {
+        Op::InsertBefore { new, .. } | Op::AppendChild { new, .. } => is_dt(new),
+        Op::ReplaceChild { new, old, .. } => is_dt(new) || is_dt(old),
+        Op::RemoveChild { old, .. } => is_dt(old),
+        _ => false,
+    }
+}
+
+/// delete_data whose result is not storable in that node kind (two '-' joined in a comment, ...):
+/// deletion is not validated
+fn delete_joins_markup(w: &World, st: &Step) -> bool {
+    match &st.op {
+        Op::DeleteData { node, off, .. } => {
+            if let Some(m) = w.model.node_slot(*node) {
+                let n = &w.model.nodes[m];
+                if !n.kind.is_chardata() || *off > chars_len(&n.data) {
+                    return false;
+                }
+                match w.model.data_after(m, &st.op) {
+                    Some(d) => !storable(n.kind, &d),
+                    None => false,
+                }
+            } else {
+                false
+            }
+        }
+        _ => false,
+    }
+}
+
+pub const TRIGGERS: &[(&str, Pred)] = &[
+    ("factory_unstorable_data", factory_unstorable_data),
+    ("doctype_moved", doctype_moved),
+    ("delete_joins_markup", delete_joins_markup),
+];
